@@ -103,8 +103,10 @@ def gen_t_chain_t(tier):
                     for outs in ("final", "final+t1", "final+mid", "final+t1+mid"):
                         if "mid" in outs and not chain:
                             continue
-                        for fan in (1, 2):
-                            if fan == 2 and tier != "thorough" and sk not in ("scalar", "transposed"):
+                        for fan in (1, 2, 3, 4, 5):
+                            if fan >= 2 and tier != "thorough" and sk not in ("scalar", "transposed"):
+                                continue
+                            if fan >= 3 and outs != "final":
                                 continue
                             name = f"t_chain_t/p{''.join(map(str, p1))}-{second}/{'.'.join(chain) or 'none'}/{sk}/{outs}/fan{fan}"
 
@@ -129,9 +131,16 @@ def gen_t_chain_t(tier):
                                     g.out(t1)
                                 if "mid" in outs and mids:
                                     g.out(mids[-1])
+                                src = mids[-1] if mids else t1
+                                other = [q for q in ([0, 2, 1], [1, 0, 2], [2, 1, 0]) if q != list(p2) and q != list(p1)][0]
                                 if fan == 2:
-                                    src = mids[-1] if mids else t1
                                     g.out(g.node("Abs", [src]))
+                                elif fan == 3:
+                                    g.out(g.node("Transpose", [src], perm=other))
+                                elif fan == 4:
+                                    g.out(g.node("Reshape", [src, g.const(np.array([-1], dtype=np.int64))]))
+                                elif fan == 5:
+                                    g.out(g.node("Transpose", [t1], perm=other))
                                 return g.build()
 
                             yield name, build
@@ -270,7 +279,7 @@ def gen_add_forest(tier):
     for p1 in perms:
         for second in ("inverse", "same"):
             for shape_kind in ("same_perm", "mixed_perm", "three", "const_side", "shared"):
-                for outs in ("final", "final+sum", "final+ta"):
+                for outs in ("final", "final+sum", "final+ta", "final+xT_after", "final+xT_before", "final+xrelu", "final+xreduce", "final+xreshape", "final+xT_on_ta"):
                     name = f"add_forest/p{''.join(map(str, p1))}-{second}/{shape_kind}/{outs}"
 
                     def build(p1=p1, second=second, shape_kind=shape_kind, outs=outs):
@@ -294,12 +303,25 @@ def gen_add_forest(tier):
                         if shape_kind == "const_side":
                             s = g.node("Add", [s, g.const(np.array(0.5, dtype=np.float32))])
                         p2 = inv_perm(p1) if second == "inverse" else list(p1)
+                        other = [q for q in ([0, 2, 1], [1, 0, 2], [2, 1, 0]) if q != p2 and q != list(p1)][0]
+                        if outs == "final+xT_before":
+                            g.out(g.node("Transpose", [s], perm=other))
                         fin = g.node("Transpose", [s], perm=p2)
                         g.out(fin)
-                        if "sum" in outs:
+                        if outs == "final+sum":
                             g.out(s)
-                        if "ta" in outs:
+                        if outs == "final+ta":
                             g.out(ta)
+                        if outs == "final+xT_after":
+                            g.out(g.node("Transpose", [s], perm=other))
+                        if outs == "final+xrelu":
+                            g.out(g.node("Relu", [s]))
+                        if outs == "final+xreduce":
+                            g.out(g.node("ReduceSum", [s, g.const(np.array([1], dtype=np.int64))], keepdims=0))
+                        if outs == "final+xreshape":
+                            g.out(g.node("Reshape", [s, g.const(np.array([-1], dtype=np.int64))]))
+                        if outs == "final+xT_on_ta":
+                            g.out(g.node("Transpose", [ta], perm=other))
                         return g.build()
 
                     yield name, build
@@ -457,7 +479,105 @@ def gen_misc(tier):
         yield f"sym/{variant}", build
 
 
+def gen_dag(tier):
+    """Pseudo-randomly generated small DAGs over the rewrite vocabulary (Transpose with inverse,
+    self-inverse and unrelated permutations, Reshape to/from flat, elementwise unary/binary,
+    Cast pairs, ReduceSum), every value free to have several consumers of different kinds and to be
+    a graph output.  Deterministic: graph i is generated from seed i (+ VERIF_SEED rotation for an
+    extra slice)."""
+    import os
+    import random
+
+    n = 1200 if tier == "quick" else 8000
+    try:
+        rot = int(os.environ.get("VERIF_SEED", "0"))
+    except ValueError:
+        rot = 0
+    seeds = list(range(n)) + [10_000_000 + rot * 1000 + i for i in range(200 if tier == "quick" else 1000)]
+    PERMS = [(1, 2, 0), (2, 0, 1), (0, 2, 1), (1, 0, 2), (2, 1, 0)]
+
+    def make(seed):
+        def build():
+            rng = random.Random(seed)
+            g = GB()
+            vals = []  # (name, shape, dtype)
+            x = g.inp("x", F, DIMS3)
+            vals.append((x, DIMS3, F))
+            if rng.random() < 0.6:
+                y = g.inp("y", F, DIMS3)
+                vals.append((y, DIMS3, F))
+            k = rng.choice([3, 4, 4, 5, 5, 6])
+            consumed = set()
+            for _ in range(k):
+                kind = rng.choice(["T", "T", "T", "un", "bin", "bin", "R", "cast", "red"])
+                cands3 = [v for v in vals if len(v[1]) == 3 and v[2] == F]
+                if kind == "T" and cands3:
+                    v = rng.choice(cands3[-3:] if rng.random() < 0.7 else cands3)
+                    p = rng.choice(PERMS)
+                    o = g.node("Transpose", [v[0]], perm=list(p))
+                    vals.append((o, tuple(v[1][i] for i in p), v[2]))
+                    consumed.add(v[0])
+                elif kind == "un":
+                    v = rng.choice([w for w in vals if w[2] == F][-3:])
+                    o = g.node(rng.choice(["Relu", "Neg", "Abs", "Tanh"]), [v[0]])
+                    vals.append((o, v[1], v[2]))
+                    consumed.add(v[0])
+                elif kind == "bin":
+                    v = rng.choice([w for w in vals if w[2] == F][-3:])
+                    same = [w for w in vals if w[1] == v[1] and w[2] == F]
+                    if rng.random() < 0.3 or not same:
+                        side = g.const(np.array(1.5, dtype=np.float32))
+                        o = g.node(rng.choice(["Add", "Mul", "Sub"]), [v[0], side])
+                    else:
+                        w = rng.choice(same)
+                        o = g.node(rng.choice(["Add", "Add", "Mul", "Sub", "Max"]), [v[0], w[0]])
+                        consumed.add(w[0])
+                    vals.append((o, v[1], F))
+                    consumed.add(v[0])
+                elif kind == "R":
+                    v = rng.choice([w for w in vals if w[2] == F][-3:])
+                    n_el = int(np.prod(v[1]))
+                    opts_ = [t for t in [(n_el,), (2, 12), (6, 4), (4, 6), DIMS3, (4, 3, 2), (3, 8), (2, 4), (4, 2), (2, 3), (3, 2), (3, 4), (4, 3), (2, 6), (1, n_el)] if int(np.prod(t)) == n_el]
+                    tgt = rng.choice(opts_)
+                    o = g.node("Reshape", [v[0], g.const(np.array(tgt, dtype=np.int64))])
+                    vals.append((o, tuple(tgt), F))
+                    consumed.add(v[0])
+                elif kind == "cast":
+                    v = rng.choice(vals[-3:])
+                    to = rng.choice([TP.DOUBLE, TP.FLOAT16, TP.INT32, TP.FLOAT])
+                    o = g.node("Cast", [v[0]], to=to)
+                    o2 = g.node("Cast", [o], to=v[2]) if rng.random() < 0.8 else None
+                    vals.append((o, v[1], to))
+                    if o2:
+                        vals.append((o2, v[1], v[2]))
+                        consumed.add(o)
+                    consumed.add(v[0])
+                elif kind == "red" and cands3:
+                    v = rng.choice(cands3[-3:])
+                    ax = rng.choice([0, 1, 2])
+                    keep = rng.choice([0, 1])
+                    o = g.node(rng.choice(["ReduceSum", "ReduceMean"]), [v[0], g.const(np.array([ax], dtype=np.int64))], keepdims=keep)
+                    shp = tuple((1 if i == ax else d) for i, d in enumerate(v[1])) if keep else tuple(d for i, d in enumerate(v[1]) if i != ax)
+                    vals.append((o, shp, F))
+                    consumed.add(v[0])
+            produced = [v for v in vals if v[0] not in ("x", "y")]
+            if not produced:
+                produced = [(g.node("Identity", [x]), DIMS3, F)]
+            for v in produced:
+                if v[0] not in consumed or rng.random() < 0.3:
+                    g.out(v[0])
+            if not g.outputs:
+                g.out(produced[-1][0])
+            return g.build()
+
+        return build
+
+    for sd in seeds:
+        yield f"dag/seed{sd}", make(sd)
+
+
 FAMILIES = {
+    "dag": gen_dag,
     "t_chain_t": gen_t_chain_t,
     "r_chain_r": gen_r_chain_r,
     "cast_pair": gen_cast_pair,
